@@ -279,7 +279,7 @@ DEFAULT_OPTS = dict(
     n_comps=(2, 5), max_rank=2, max_extent=3, units=True, chains=True, max_deg=2,
     scaling=False, safe_indices=False, cycles=False, auto_ivc=True, shuffle_order=False,
     implicit=False, array_scaling=False, resp_chain=False, prefix_names=False, dyn_sibling=False,
-    auto_ivc_p=0.15, solver_options_api=False, partial_auto_order=False,
+    auto_ivc_p=0.15, solver_options_api=False, partial_auto_order=False, scalar0d=False,
 )
 
 
@@ -320,6 +320,8 @@ def gen_md(rng, **kw):
              'kind': 'ivc', 'ins': [], 'outs': [], 'promote_outs': rng.random() < 0.5}
         for j in range(rng.randint(1, 2)):
             shape = _rand_shape(rng, o['max_rank'] + (1 if rng.random() < 0.2 else 0), o['max_extent'])
+            if o['scalar0d'] and rng.random() < 0.35:
+                shape = []          # a 0-d (shape=()) independent variable
             size = int(np.prod(shape))
             units = rng.choice([None, 'm', 'cm', 's', 'kg', 'degC', 'ft']) if o['units'] else None
             od = {'name': 'x%d%d' % (k, j), 'shape': shape, 'units': units,
@@ -351,6 +353,8 @@ def gen_md(rng, **kw):
                 sci, sod = rng.choice(outs)
                 nlev = 1 if not o['chains'] else rng.choice([0, 1, 1, 1, 2, 2, 3])
                 nlev = min(nlev, c['group'].count('.') + (2 if c['group'] else 1) + 1)
+                if len(sod['shape']) == 0:
+                    nlev = 0        # a 0-d source is taken whole
                 shape = list(sod['shape'])
                 chain = []
                 for lv in range(nlev):
@@ -1094,8 +1098,10 @@ def build_problem(md, log=None, cfg=None):
         if c['kind'] == 'ivc':
             comp = om.IndepVarComp()
             for od in c['outs']:
+                kw = {'shape': ()} if len(od['shape']) == 0 else {}     # a true 0-d variable
                 comp.add_output(od['name'], val=np.array([float(unrat(v)) for v in od['val']]
-                                                         ).reshape(od['shape']), units=od['units'])
+                                                         ).reshape(od['shape']), units=od['units'],
+                                **kw)
         else:
             cd = dict(c)
             if cfg.get('partials'):
